@@ -19,6 +19,9 @@ template <typename M, typename N>
     requires(is_integral_v<M> and not is_same_v<M, bool> and is_integral_v<N> and not is_same_v<N, bool>)
 [[nodiscard]] constexpr auto lcm(M m, N n) -> common_type_t<M, N>
 {
+    if (m == M(0) or n == N(0)) {
+        return common_type_t<M, N>(0);
+    }
     return (m * n) / gcd(m, n);
 }
 
